@@ -103,16 +103,30 @@ def strip_lean_comments(s):
     return s
 
 
-def scan_forbidden():
+def module_closure(prop):
+    """files of the property module and everything it (transitively) imports from this project"""
+    seen = {}
+    todo = ["RzmqModel.Props." + prop]
+    while todo:
+        m = todo.pop()
+        if m in seen:
+            continue
+        path = os.path.join(LEAN, *m.split(".")) + ".lean"
+        if not os.path.exists(path):
+            continue
+        seen[m] = path
+        for mm in re.finditer(r"^import\s+(RzmqModel\.\S+)", open(path).read(), re.M):
+            todo.append(mm.group(1))
+    return seen
+
+
+def scan_forbidden(prop):
     hits = []
-    for root, _, files in os.walk(os.path.join(LEAN, "RzmqModel")):
-        for fn in files:
-            if fn.endswith(".lean"):
-                p = os.path.join(root, fn)
-                txt = strip_lean_comments(open(p).read())
-                for i, line in enumerate(txt.splitlines()):
-                    if FORBIDDEN.search(line):
-                        hits.append("%s: %s" % (os.path.relpath(p, LEAN), line.strip()[:80]))
+    for m, p in sorted(module_closure(prop).items()):
+        txt = strip_lean_comments(open(p).read())
+        for line in txt.splitlines():
+            if FORBIDDEN.search(line):
+                hits.append("%s: %s" % (os.path.relpath(p, LEAN), line.strip()[:80]))
     return hits
 
 
@@ -187,7 +201,7 @@ def lean_check(ctx, prop, extra_modules=()):
             elif not set(axioms[n]) <= ALLOWED_AXIOMS:
                 failed.add(n)
                 ctx.broken.append("audit: %s depends on %s" % (n, axioms[n]))
-    forb = scan_forbidden()
+    forb = scan_forbidden(prop)
     if forb:
         failed = set(names)
         ctx.broken.append("forbidden constructs: " + "; ".join(forb[:5]))
@@ -244,7 +258,7 @@ def run_pair(ctx, comp, cases):
     return [(impl[a:b], model[a:b]) for a, b in bounds]
 
 
-def corr_component(ctx, comp, cases, nontrivial=None, sample_n=3, label=None):
+def corr_component(ctx, comp, cases, nontrivial=None, sample_n=3, label=None, oracle=None):
     """Lock-step run of `cases` on implementation and model.  Returns list of dicts for cases where
     something is wrong: kind = 'oracle' (implementation fails the property's own oracle) or
     'disagree' (model and implementation differ)."""
@@ -259,9 +273,20 @@ def corr_component(ctx, comp, cases, nontrivial=None, sample_n=3, label=None):
         stat["ops"] += len(case)
         orc = [i for i, l in enumerate(impl) if l.startswith("ORACLE-FAIL") or l in ("PANIC", "HARNESS-DIED")]
         dif = [i for i in range(len(case)) if impl[i] != model[i]]
+        detail = None
+        if not orc and oracle is not None:
+            try:
+                detail = oracle(case, impl)
+            except Exception as e:  # an oracle that cannot parse the output is itself a failure to check
+                detail = "oracle crashed: %r" % (e,)
+            if detail:
+                impl = list(impl) + ["ORACLE-FAIL " + detail]
+                model = list(model) + ["(python oracle)"]
+                orc = [len(impl) - 1]
         if orc:
             stat["oracle_failures"] += 1
-            bad.append({"kind": "oracle", "component": comp, "ops": case, "impl": impl, "model": model, "at": orc[0]})
+            bad.append({"kind": "oracle", "component": comp, "ops": case, "impl": impl, "model": model, "at": orc[0],
+                        "detail": detail, "oracle": oracle})
         elif dif:
             stat["disagreements"] += 1
             bad.append({"kind": "disagree", "component": comp, "ops": case, "impl": impl, "model": model, "at": dif[0]})
@@ -284,10 +309,19 @@ def shrink_case(ctx, comp, bad):
     ops = list(bad["ops"])
     kind = bad["kind"]
 
+    orc = bad.get("oracle")
+
     def fails(cand):
         (impl, model), = run_pair(ctx, comp, [cand])
         if kind == "oracle":
-            return any(l.startswith("ORACLE-FAIL") or l in ("PANIC", "HARNESS-DIED") for l in impl)
+            if any(l.startswith("ORACLE-FAIL") or l in ("PANIC", "HARNESS-DIED") for l in impl):
+                return True
+            if orc is not None:
+                try:
+                    return bool(orc(cand, impl))
+                except Exception:
+                    return False
+            return False
         return impl != model
 
     if len(ops) > 1:
@@ -308,7 +342,16 @@ def shrink_case(ctx, comp, bad):
                 n = min(n * 2, len(ops))
     (impl, model), = run_pair(ctx, comp, [ops])
     out = dict(bad)
+    if orc is not None:
+        try:
+            d = orc(ops, impl)
+        except Exception:
+            d = None
+        if d:
+            impl = list(impl) + ["ORACLE-FAIL " + d]
+            out["detail"] = d
     out.update({"ops": ops, "impl": impl, "model": model, "shrunk_from": len(bad["ops"])})
+    out.pop("oracle", None)
     return out
 
 
